@@ -85,6 +85,8 @@ add('k2_insert', 'push_from_drained_e16', 'insert_from_other::<E16>(true, OP_DRA
 add('k2_insert', 'insert_lazy_clone_e8', 'insert_lazy_clone::<E8>(false)', props=['C01', 'C09', 'C03'], tier='q', cost=40)
 add('k2_insert', 'push_lazy_clone_e8', 'insert_lazy_clone::<E8>(true)', props=['C09'], tier='q', cost=20)
 add('k2_insert', 'insert_lazy_clone_tgt_e8', 'insert_lazy_clone_tgt::<E8>(false)', props=['C01', 'C06'], tier='q', cost=50)
+add('k2_insert', 'insert_lazy_clone_known_e8', 'insert_lazy_clone_tgt_k::<E8>(false, true)', props=['C06', 'C01', 'C09'], tier='q', cost=50)
+add('k2_insert', 'push_lazy_clone_known_e8', 'insert_lazy_clone_tgt_k::<E8>(true, true)', props=['C06', 'C09'], tier='q', cost=20)
 add('k2_insert', 'insert_lazy_clone_tgt_e3', 'insert_lazy_clone_tgt::<E3>(false)', props=['C06'], tier='t', cost=300)
 
 # ---------------------------------------------------------------------------------------------------
